@@ -7,7 +7,7 @@ usage: paircheck.py [-j N] [-n SAMPLES] [-k 2|3] [-seed S]"""
 import glob, os, random, re, subprocess, sys, tempfile
 from concurrent.futures import ThreadPoolExecutor
 
-ENV = dict(os.environ, GOFLAGS="-mod=mod", GOPROXY="off", GOSUMDB="off", GOTOOLCHAIN="local")
+ENV = dict(os.environ, GOFLAGS="-mod=mod -trimpath", GOPROXY="off", GOSUMDB="off", GOTOOLCHAIN="local")
 ENV.pop("GOWORK", None)
 
 
@@ -61,3 +61,4 @@ def main():
 
 if __name__ == "__main__":
     main()
+    subprocess.run("/verif/tools/trimcache.sh", shell=True)
